@@ -392,6 +392,11 @@ impl Sess {
                             let p = c.payload.clone().unwrap();
                             evs.push(Ev::NBirth { seq: p.seq, bdseq: bdseq_of(&p), status, payload: p })
                         }
+                        Kind::DBirth if c.is_try && status == Status::Rejected => {
+                            // handed over by a call that cannot wait and refused by the full request
+                            // queue: this DBIRTH was never published
+                            evs.push(Ev::Other("DBIRTH-refused-try".to_string()))
+                        }
                         Kind::DBirth => {
                             let p = c.payload.clone().unwrap();
                             evs.push(Ev::DBirth { dev: topic_device(&c.topic), seq: p.seq, payload: p })
@@ -497,6 +502,12 @@ pub fn drop_session() {
 fn exec_on(s: &mut Sess, w: &[&str], op: &str, out: &mut Out) -> String {
     let parked = !s.hub.parked_ids().is_empty();
     match w[1] {
+        "fullqueue" => {
+            // from now on the client's request queue is full: try_ calls fail at once, blocking
+            // calls wait for room and get through
+            s.hub.default_try(Some(Decision::Reject));
+            "ok".into()
+        }
         "wall" => {
             let ms: u64 = w[2].parse().unwrap();
             mock::set_clocks(ms);
@@ -1506,6 +1517,10 @@ fn random_history(out: &mut Out, rng: &mut Rng, simple: bool, table: &[(String, 
     let newop = format!("cmd new {} {} {} {} {}", cooldown, wall, ndev, simple as u8, if simple { table_tok(table) } else { "_".into() });
     let a = exec(&newop, out);
     out.begin_case(&newop, &a);
+    if rng.chance(1, 4) {
+        let a = exec("cmd fullqueue", out);
+        out.line("cmd fullqueue", &a);
+    }
     let mut nontrivial = false;
     let nops = 6 + rng.below(25);
     let mut birthed_once = false;
@@ -1671,8 +1686,14 @@ pub fn run(args: &Args, out: &mut Out) -> &'static str {
                                 if !th && ndev == 2 && !enable_first && cd == 1_000_000_000 {
                                     continue;
                                 }
-                                for fo in &follow {
+                                for (fo, fq) in follow.iter().flat_map(|f| [(f, false), (f, true)]) {
+                                    if fq && !(cd == 0 && enable_first) {
+                                        continue;
+                                    }
                                     let mut ops = vec![format!("cmd new {} 2000000 {} 0 _", cd, ndev)];
+                                    if fq {
+                                        ops.push("cmd fullqueue".into());
+                                    }
                                     let enables: Vec<String> = (0..ndev).filter(|k| enabled_mask >> k & 1 == 1).map(|k| format!("cmd enable d{}", k)).collect();
                                     if enable_first {
                                         ops.extend(enables.clone());
